@@ -3,6 +3,7 @@ package main
 // call.go — calls: builtins, contracts of /repo functions, models of external functions, frames.
 
 import (
+	"os"
 	"fmt"
 	"go/token"
 	"go/types"
@@ -107,6 +108,7 @@ func (c *FnCtx) callEffects(cc *ssa.CallCommon, res ssa.Value, pos token.Pos, de
 
 func (c *FnCtx) staticCall(callee *ssa.Function, bindings, args []Val, cc *ssa.CallCommon, resType types.Type, pos token.Pos) Val {
 	key := fnKey(callee)
+	c.callsiteObligations(callee, bindings, args, pos)
 	// 1. extern model
 	if m, ok := externModels[externName(callee)]; ok {
 		if v, handled := m(c, callee, args, resType, pos); handled {
@@ -318,8 +320,19 @@ func (c *FnCtx) havocWithAssigns(spec *FuncSpec, names map[string]Val, pre map[s
 	}
 	sort.Strings(ns)
 	wm := c.heapIn(pre, "$wm")
+	unproven := map[string]bool{}
+	if strictFrames {
+		unproven = spec.frameExcepted()
+	}
 	for _, n := range ns {
 		if n == "$wm" {
+			continue
+		}
+		if unproven[n] {
+			// the callee's frame obligation for this heap class is excepted (not proved): its assigns
+			// clause says nothing here, the whole class is havocked as the static MOD analysis allows
+			c.heapSort(n)
+			c.havocHeap(n)
 			continue
 		}
 		if strings.HasPrefix(n, "G|") {
@@ -822,6 +835,27 @@ func (c *FnCtx) errConvention(callee *ssa.Function, rv Val) {
 }
 
 // belowParams: parameter names listed as below(x) in the assigns clause
+// strictFrames (GOVC_STRICT_FRAMES=1): callers ignore an assigns/pure clause for the heap classes whose frame
+// obligation is excepted in the callee. Off by default: the clause is then an ASSUMED contract at the callers,
+// reported per property in the evidence (coverage.assumed_frames) — see DESIGN 7.7.
+var strictFrames = os.Getenv("GOVC_STRICT_FRAMES") != ""
+
+// frameExcepted: heap classes whose frame obligation is listed in an except clause of the contract
+func (s *FuncSpec) frameExcepted() map[string]bool {
+	r := map[string]bool{}
+	for _, x := range s.Except {
+		x = strings.TrimSpace(x)
+		if strings.HasPrefix(x, "frame[") {
+			h := strings.TrimSuffix(strings.TrimPrefix(x, "frame["), "]")
+			if i := strings.LastIndex(h, "/ret"); i >= 0 {
+				h = h[:i]
+			}
+			r[h] = true
+		}
+	}
+	return r
+}
+
 func (s *FuncSpec) belowParams() []string {
 	var r []string
 	for _, a := range s.Assigns {
@@ -1047,4 +1081,45 @@ func instrIndex(in ssa.Instruction) int {
 		}
 	}
 	return -1
+}
+
+// callsiteObligations: ghost assertions of the current function's contract at calls of the named callee
+func (c *FnCtx) callsiteObligations(callee *ssa.Function, bindings, args []Val, pos token.Pos) {
+	if c.Spec == nil || len(c.Spec.Callsites) == 0 || c.inl != nil {
+		return
+	}
+	key, ext := fnKey(callee), externName(callee)
+	for i, cs := range c.Spec.Callsites {
+		if cs.Callee != key && cs.Callee != ext {
+			continue
+		}
+		if c.callsiteHit == nil {
+			c.callsiteHit = map[int]bool{}
+		}
+		c.callsiteHit[i] = true
+		names := map[string]Val{}
+		for n, v := range c.params {
+			names[n] = v
+			if !strings.HasPrefix(n, "&") {
+				names["caller_"+n] = v // the callee's parameter names shadow the caller's
+			}
+		}
+		for n, v := range c.calleeEnv(callee, bindings, args) {
+			names[n] = v
+		}
+		for j, a := range args {
+			if a.GT == nil && j < len(callee.Params) {
+				a.GT = callee.Params[j].Type()
+			}
+			names[fmt.Sprintf("arg%d", j)] = a
+		}
+		env := &specEnv{c: c, vars: names, st: c.st, old: c.entry, bound: map[string]Val{}}
+		t, err := env.evalBool(cs.Cl.Expr)
+		if err != nil {
+			c.E.specError(c.Name+" (callsite "+cs.Callee+")", cs.Cl, err)
+			continue
+		}
+		o := c.oblige("callsite", t, fmt.Sprintf("%s/c%d", cs.Callee, i+1), pos)
+		o.Props = cs.Cl.Props
+	}
 }
